@@ -158,6 +158,25 @@ type c09World struct {
 	e     *vEnv
 	evlog []string // global ordered log of observable events (announcements, lookup results)
 	mu    sync.Mutex
+	// set in scheduled runs: lets the announcement callbacks act as yield points when (and only
+	// when) they are invoked without the registry lock held
+	sched *c09Sched
+	cur   int
+}
+
+// announceYield parks the current actor inside a detector announcement iff the registry lock is not
+// held at that moment. The pipeline announces inside the locked validation step, so on such code
+// this never yields; if the announcement is made after the lock was released, other actors can run
+// in between and the order of events becomes observable.
+func (w *c09World) announceYield(point string) {
+	if w.sched == nil {
+		return
+	}
+	r := w.e.rm.registeredDecoys
+	if r.m.TryLock() {
+		r.m.Unlock()
+		w.sched.yield(w.cur, point)
+	}
 }
 
 func (w *c09World) ev(format string, a ...any) {
@@ -184,8 +203,14 @@ func c09Init(e *vEnv, scn c09Scenario) (*c09World, error) {
 	*e.rm.RegConfig = *c09Conf(0)
 	w := &c09World{e: e}
 	r := e.rm.registeredDecoys
-	r.registerForDetector = func(d *DecoyRegistration) { w.ev("announce New %s covert=%s", c09KeyOf(e, d), d.Covert) }
-	r.updateInDetector = func(d *DecoyRegistration) { w.ev("announce Update %s covert=%s", c09KeyOf(e, d), d.Covert) }
+	r.registerForDetector = func(d *DecoyRegistration) {
+		w.announceYield("announce-new:unlocked")
+		w.ev("announce New %s covert=%s", c09KeyOf(e, d), d.Covert)
+	}
+	r.updateInDetector = func(d *DecoyRegistration) {
+		w.announceYield("announce-update:unlocked")
+		w.ev("announce Update %s covert=%s", c09KeyOf(e, d), d.Covert)
+	}
 	e.live.Verdict = nil
 	for _, p := range scn.Pre {
 		reg, err := c09MakeReg(e, p.Secret, p.TT, c09Coverts["ok1"])
@@ -389,6 +414,8 @@ func c09Concurrent(e *vEnv, c c09Case) (*c09Run, error) {
 			resMu.Unlock()
 		}(i, a, &rmCopy)
 	}
+	w.sched = s
+	defer func() { w.sched = nil }()
 	parked := map[int]string{}
 	finished := map[int]bool{}
 	running := n // actors that have been started and not yet parked/finished
@@ -450,6 +477,7 @@ func c09Concurrent(e *vEnv, c c09Case) (*c09Run, error) {
 		}
 		delete(parked, pick)
 		running = 1
+		w.cur = pick
 		s.resume[pick] <- struct{}{}
 		if !wait(10 * time.Second) {
 			// the resumed actor neither parked nor finished: release everybody and see whether the system ends
@@ -643,6 +671,10 @@ func c09Eval(e *vEnv, c c09Case) (v c09Verdict, err error) {
 		f := strings.Fields(l)
 		if strings.HasPrefix(l, "announce New ") {
 			announced[f[2]] = true
+		}
+		if strings.HasPrefix(l, "announce Update ") && !announced[f[2]] && !initiallyValid[f[2]] {
+			v.key, v.msg = "update-before-new", fmt.Sprintf("the detector was told Update for %s before (or without) New", f[2])
+			return v, nil
 		}
 		if strings.HasPrefix(l, "lookup[") && strings.Contains(l, "-> found") {
 			if !announced[f[1]] && !initiallyValid[f[1]] {
